@@ -135,3 +135,63 @@ func scalarBytes(k *big.Int, mode int, r *mon.Rand) []byte {
 }
 
 var modeName = []string{"min", "fix32", "padded"}
+
+// montValue is a structured residue m meant to be the MONTGOMERY representation of a field
+// element (the library keeps a*2^256 mod q in its limbs): the thresholds of modular addition,
+// doubling and tripling (q/2, q/3, 2q/3, 2^256/3, (2^256+q)/3, (2^256+q)/2, 2^255), the ends of
+// the range, single-limb patterns and powers of two. dir is the direction (+1 up, -1 down) in
+// which a bounded walk may look for a usable neighbour while staying on the same side of the threshold.
+type montValue struct {
+	name string
+	m    *big.Int
+	dir  int64
+}
+
+func montSet(q *big.Int, qname string, full bool) []montValue {
+	var out []montValue
+	put := func(name string, m *big.Int, dir int64) {
+		if m.Sign() >= 0 && m.Cmp(q) < 0 {
+			out = append(out, montValue{name, m, dir})
+		}
+	}
+	div := func(a *big.Int, d int64) *big.Int { return new(big.Int).Div(a, bi(d)) }
+	for d := int64(0); d <= 2; d++ {
+		put(fmt.Sprintf("%d", d), bi(d), 1)
+		put(fmt.Sprintf("%s-%d", qname, d+1), sub(q, bi(d+1)), -1)
+	}
+	// around each threshold t: walk down from floor(t)-d and up from floor(t)+1+d
+	for _, t := range []struct {
+		n string
+		v *big.Int
+	}{
+		{qname + "/2", div(q, 2)}, {qname + "/3", div(q, 3)}, {"2" + qname + "/3", div(lsh(q, 1), 3)},
+		{"2^256/3", div(p256, 3)}, {"(2^256+" + qname + ")/3", div(add(p256, q), 3)}, {"2^257/3", div(lsh(p256, 1), 3)},
+		{"2^255", sub(pow2(255), one)}, {"(2^256+" + qname + ")/2", div(add(p256, q), 2)}, {"2^256-" + qname, sub(sub(p256, q), one)},
+		{"2(2^256-" + qname + ")", sub(lsh(sub(p256, q), 1), one)}, {qname + "/4", div(q, 4)}, {"3" + qname + "/4", div(mul(q, bi(3)), 4)},
+	} {
+		for d := int64(0); d <= 2; d++ {
+			put(fmt.Sprintf("floor(%s)-%d", t.n, d), sub(t.v, bi(d)), -1)
+			put(fmt.Sprintf("floor(%s)+%d", t.n, d+1), add(t.v, bi(d+1)), 1)
+		}
+	}
+	for l := 0; l < 4; l++ {
+		put(fmt.Sprintf("limb%d=ff..", l), ones(64*l, 64), 1)
+		put(fmt.Sprintf("limb%d=2^63", l), pow2(64*l+63), 1)
+		put(fmt.Sprintf("limb%d=2^63+2^31", l), add(pow2(64*l+63), pow2(64*l+31)), -1)
+		put(fmt.Sprintf("limb%d=1", l), pow2(64*l), 1)
+	}
+	for k := 1; k < 256; k++ {
+		if !full && k%32 != 0 && k%32 != 31 {
+			continue
+		}
+		put(fmt.Sprintf("2^%d", k), pow2(k), 1)
+		put(fmt.Sprintf("2^%d-1", k), sub(pow2(k), one), -1)
+		put(fmt.Sprintf("%s-2^%d", qname, k), sub(q, pow2(k)), -1)
+	}
+	return out
+}
+
+// fromMont returns m * 2^-256 mod q: the natural value whose Montgomery form is m.
+func fromMont(m, q *big.Int) *big.Int {
+	return new(big.Int).Mod(mul(m, new(big.Int).ModInverse(new(big.Int).Mod(p256, q), q)), q)
+}
